@@ -1317,6 +1317,60 @@ def static_checks(ctx: Ctx) -> None:
                                     {"site": key, "static": "msg_id"}))
 
 
+def history_checks(ctx: Ctx) -> None:
+    """
+    "For every history" on one Serializer object: what it decoded earlier must not matter to what it decodes later.
+    (1) a format name is re-registered with another packer (``add_packer`` is public) after a class using it was decoded;
+    (2) a dataclass payload type is offered for decoding before any instance of it exists (refused on the pinned tree),
+        instances are created afterwards and their encodings must decode.
+    """
+    import dataclasses
+
+    from ipv8.messaging.lazy_payload import VariablePayload
+    from ipv8.messaging.payload_dataclass import DataClassPayload
+    from ipv8.messaging.serialization import Serializer, VarLen
+
+    def bad(name: str, msg: str) -> None:
+        ctx.violation(Violation("a", "history:" + name, msg, {"site": "history", "history": name}))
+    for offset in (0, 3):
+        # (1)
+        ser = Serializer()
+        ser.add_packer("pvblob", VarLen(">H"))
+        cls = type("PvLate", (VariablePayload,), {"format_list": ["pvblob", "H"], "names": ["blob", "n"]})
+        first = cls(b"first", 1)
+        try:
+            ser.unpack_serializable(cls, b"\x00" * offset + ser.pack_serializable(first), offset=offset)
+            ser.add_packer("pvblob", VarLen(">I"))
+            want = cls(b"\x00\x00\x00payload", 7)
+            buf = b"\x00" * offset + ser.pack_serializable(want)
+            got, end = ser.unpack_serializable(cls, buf, offset=offset)
+            if (got.blob, got.n) != (want.blob, want.n) or end != len(buf):
+                bad("late_packer", f"format name re-registered (2-byte -> 4-byte length prefix) after the class was decoded once: "
+                                   f"{(want.blob, want.n)} encodes to {buf.hex()} and decodes to {(got.blob, got.n)}, consumed up "
+                                   f"to {end} of {len(buf)} (offset {offset})")
+        except Exception as e:  # noqa: BLE001
+            bad("late_packer", f"format name re-registered after the class was decoded once: {type(e).__name__}: {e}")
+        # (2)
+        ser = Serializer()
+        dc = dataclasses.make_dataclass("PvEarly%d" % offset, [("a", int), ("b", bytes), ("c", str)], bases=(DataClassPayload,),
+                                        module=__name__)
+        globals()[dc.__name__] = dc
+        try:
+            ser.unpack_serializable(dc, b"\x00" * 40, offset=offset)
+        except Exception:  # noqa: BLE001 - too early: refused on the pinned tree, not judged
+            pass
+        try:
+            want = dc(5, b"bytes", "text")
+            buf = b"\x00" * offset + ser.pack_serializable(want)
+            got, end = ser.unpack_serializable(type(want), buf, offset=offset)
+            if (got.a, got.b, got.c) != (5, b"bytes", "text") or end != len(buf):
+                bad("early_decode", f"dataclass payload decoded to {(got.a, got.b, got.c)}, consumed up to {end} of {len(buf)}")
+        except Exception as e:  # noqa: BLE001
+            bad("early_decode", f"a Serializer that was offered a dataclass payload type before any instance existed can never "
+                                f"decode it afterwards: {type(e).__name__}: {e}")
+    ctx.case("history", True, cls="history")
+
+
 # ---- drivers ------------------------------------------------------------------------------------------------------------------------
 
 def sites() -> list:
@@ -1412,6 +1466,7 @@ def run(ctx: Ctx) -> None:
     build_registry()
     STATE["max_edges"] = not ctx.quick      # the most expensive maximal lengths only in the thorough tier
     static_checks(ctx)
+    history_checks(ctx)
     n_cls = sum(1 for k in REG if k.startswith("cls:"))
     ctx.note("discovered_classes", n_cls)
     ctx.note("skipped_classes", SKIP_CLASSES)
@@ -1428,6 +1483,13 @@ def replay(ctx: Ctx, case: dict) -> None:
         static_checks(sub)
         for rec in sub.violations.values():
             if rec["case"]["site"] == case["site"]:
+                raise Violation(rec["clause"], rec["site"], rec["msg"], case)
+        return
+    if case["site"] == "history":
+        sub = Ctx(PID, "quick", 0)
+        history_checks(sub)
+        for rec in sub.violations.values():
+            if rec["case"].get("history") == case.get("history"):
                 raise Violation(rec["clause"], rec["site"], rec["msg"], case)
         return
     if case["site"] == "cell:CellPayload":
